@@ -2,8 +2,11 @@ package sim
 
 import (
 	"fmt"
+	"os"
+	"runtime"
 	"runtime/debug"
 	"sort"
+	"strings"
 	"testing"
 	"testing/synctest"
 
@@ -68,6 +71,12 @@ func RunPlan(t *testing.T, p *plan.Plan, trace bool, emitEarly func(*EpisodeResu
 	if p.Cfg.MaxBytesLen > 0 {
 		tengo.MaxBytesLen = p.Cfg.MaxBytesLen
 	}
+	if p.Cfg.PoolShare {
+		// what a sync.Pool hands out must be a function of the episode alone: one P
+		// (no per-P caches to miss), no collection (no pool clearing) while it runs
+		oldP, oldGC := runtime.GOMAXPROCS(1), debug.SetGCPercent(-1)
+		defer func() { runtime.GOMAXPROCS(oldP); debug.SetGCPercent(oldGC) }()
+	}
 	defer func() {
 		tengo.MaxStringLen, tengo.MaxBytesLen = oldS, oldB
 		if r := recover(); r != nil {
@@ -99,7 +108,27 @@ func RunPlan(t *testing.T, p *plan.Plan, trace bool, emitEarly func(*EpisodeResu
 			// A race report makes the testing package fail the bubble's test and
 			// end this process as soon as the bubble function returns, so the
 			// result has to leave from in here.
-			if RaceBuild && collectRaces(p, res) && emitEarly != nil {
+			raced := RaceBuild && collectRaces(p, res)
+			// in the episodes built to show what memory shared between two compiled
+			// objects leads to (fragment keptClosure), that sharing explains whatever
+			// else is seen (differing results, races on that memory): the cause is
+			// reported alone there; everywhere else every oracle stands
+			var shared, others []Violation
+			for _, v := range res.Violations {
+				if strings.Contains(v.Oracle, ".shared:") {
+					shared = append(shared, v)
+				} else {
+					others = append(others, v)
+				}
+			}
+			if len(shared) > 0 {
+				if strings.Contains(p.Notes["frags"], "keptClosure") && os.Getenv("VERIF_NOFILTER") == "" {
+					res.Violations = shared
+				} else {
+					res.Violations = append(others, shared...) // the episode's class is the first entry
+				}
+			}
+			if raced && emitEarly != nil {
 				emitEarly(res)
 			}
 		}()
